@@ -40,7 +40,7 @@ def rule_contain(program, ctx):
         "start_client: `while True` body is exactly one try whose handlers include a catch-all `except Exception` that closes the socket and "
         "breaks; every handler either continues, breaks or sends; the function body's outer try has a catch-all and a finally; nothing "
         "but assignments precedes the outer try",
-        floor=4,
+        floor=2,
     )
     fn = program.func("nostr_relay.web:start_client")
     outer = [s for s in fn.body if isinstance(s, ast.Try)]
@@ -230,7 +230,7 @@ def rule_cleanup(program, ctx):
         "start_client: client_id bound once from ClientID(...); ClientID keeps identity equality (no __eq__ override: two connections can "
         "never share a registry entry); finally reaches storage.unsubscribe(client_id) first and unconditionally, cancels and awaits the "
         "sender inside a CancelledError handler, runs limiter cleanup",
-        floor=4,
+        floor=2,
     )
     sc = program.func("nostr_relay.web:start_client")
     st = stores_of(sc, "client_id")
@@ -353,7 +353,7 @@ def rule_filters(program, ctx):
         "C19.filters",
         "NostrQuery.model_validate: iteration over a non-dict filter is inside a try whose AttributeError handler raises StorageError; "
         "BaseStorage.subscribe validates each filter inside a try with a ValidationError handler (one bad filter does not fail the REQ)",
-        floor=2,
+        floor=1,
     )
     mv = program.func("nostr_relay.storage.base:NostrQuery.model_validate")
     found = False
